@@ -61,6 +61,8 @@ type c18Case struct {
 	dup bool
 	// stdioerr: the plugin's stdio stream ends at once with an unexpected status (Internal)
 	stdioerr bool
+	// flash > 0: before Kill the host accepts that many brokered ids and closes each listener at once
+	flash int
 }
 
 func (c *c18Case) line() string {
@@ -81,6 +83,9 @@ func (c *c18Case) line() string {
 	if c.stdioerr {
 		s += " stdioerr=1"
 	}
+	if c.flash > 0 {
+		s += fmt.Sprintf(" flash=%d", c.flash)
+	}
 	return s
 }
 
@@ -99,6 +104,7 @@ func c18FromLine(m map[string]string) (*c18Case, error) {
 	fmt.Sscanf(m["lns"], "%d", &c.lns)
 	c.dup = m["dup"] == "1"
 	c.stdioerr = m["stdioerr"] == "1"
+	fmt.Sscanf(m["flash"], "%d", &c.flash)
 	if c.pre = m["pre"]; c.pre != "" && c.pre != "close" {
 		return nil, errors.New("bad pre")
 	}
@@ -471,6 +477,19 @@ func c18Session(c *c18Case) (impl, pred string, notes []string) {
 				}
 			}
 		}
+		if c.flash > 0 {
+			stage = "flash-listeners"
+			if kit == nil {
+				if err := dispense(); err != nil {
+					return err
+				}
+			}
+			if l, ok := kit.(interface{ FlashListeners(n int) error }); ok {
+				if err := l.FlashListeners(c.flash); err != nil {
+					return err
+				}
+			}
+		}
 		if c.dup {
 			stage = "dup-advert"
 			if kit == nil {
@@ -675,6 +694,14 @@ func c18Generate(r *rng) []*c18Case {
 				c.pre = "close"
 				add(c, []string{"d", "c"}, 0)
 			}
+		}
+	}
+	// brokered listeners accepted and closed at once (with and without multiplexing), then Kill
+	for _, cf := range cfgs {
+		if cf.proto == "grpc" && !cf.auto && cf.launch == "cmd" {
+			c := cf
+			c.flash = 40
+			add(c, []string{"d"}, 0)
 		}
 	}
 	// a gRPC plugin whose stdio stream ends at once with an unexpected status
